@@ -1,9 +1,10 @@
 (* C12/Property.v — obligations over the Gauss-Legendre tables regenerated
    from /repo/sasmodels/models/lib on every run (finite, exact integer
    arithmetic, by computation). *)
-From Coq Require Import ZArith List Bool.
+From Coq Require Import ZArith List Bool Reals.
+From Coquelicot Require Import Coquelicot.
 Import ListNotations.
-From SM Require Import C12.Model Gen.C12_tables.
+From SM Require Import C12.Model Gen.C12_tables C12.Average.
 Open Scope Z_scope.
 
 (* nodes strictly increasing in (-1,1) and antisymmetric, weights positive and
@@ -20,3 +21,15 @@ Print Assumptions C12_gauss76_exact.
 Theorem C12_gauss150_exact : well_formed (10 ^ 10) D gauss150 && exact_to_degree (10 ^ 10) D gauss150 = true.
 Proof. vm_compute. reflexivity. Qed.
 Print Assumptions C12_gauss150_exact.
+
+(* ---- the change of variables (Coquelicot's Riemann integral) ----
+   h(u) is the particle-frame function as a function of u = cos(alpha), alpha the angle between q and the particle
+   axis: h(u) = g(q sqrt(1-u^2), q u) for a shape of revolution, continuous and even in u.  The uniform average
+   over all directions of q, (1/2) int_{-1}^{1} h(u) du (the area element of the sphere is du dphi), equals the
+   integral int_0^{pi/2} h(cos a) sin a da that the models' Iq/Fq evaluate with their Gauss-Legendre rule, and the
+   half-range integral int_0^1 h(u) du the check's reference uses. *)
+Theorem C12_average_forms : forall h : R -> R, (forall u, continuous h u) -> (forall u, h (- u)%R = h u) ->
+  (RInt h (-1) 1 / 2 = RInt (fun a => h (cos a) * sin a) 0 (PI / 2))%R /\
+  (RInt (fun a => h (cos a) * sin a) 0 (PI / 2) = RInt h 0 1)%R.
+Proof. intros h Ch He. split; [apply orientational_average_forms; assumption | apply polar_substitution; assumption]. Qed.
+Print Assumptions C12_average_forms.
